@@ -1,33 +1,19 @@
+import GoldModel.Lemmas.LintReq
 import GoldModel.Props.C15
+import GoldModel.Props.C16Spec
 /-!
 # C16 — rule-based warnings match their stated rules
 
-Property theorems only.  One theorem per rule of the shape `ruleModel = ruleSpec` for every
-method / every declaration, `lint_is_union` (each flagged once and nothing else), locality and
-idempotence of the request.  All for every `norm` that upper-cases the handful of names the
-property mentions (`NormOK`), every method, every list of methods.
-
-The property's rules (specifications below):
-* `returnTypeSpec`  — a function whose return type is named `Text`, `tVarByteArray` or
-  `aListOfInstances` (up to `norm`) is flagged on the return type;
-* `inheritedSpec`   — a method named `Init`, `Terminate`, `NotifyInit` or `NotifyTerminate` is flagged on
-  its name unless some visit of the method is `inherited self.<same name>` or a stand-alone `pass`;
-* `unpurgedSpec`    — a local declared `tVarByteArray` is flagged on its name unless some visit of the
-  method is a call `Purge(<that variable>, …)`;
-* `namingSpec`      — members and parameters capitalised unless the member overrides, locals not
-  capitalised, types `t…`, constants `c…` or `ml…`, flagged on the name.
+Property theorems only (specification: `Props/C16Spec.lean`).  One theorem per rule of the shape
+`ruleModel = ruleSpec` for every method / every declaration, `lint_is_union` (each flagged once and
+nothing else), per-method independence of the whole response (`lint_hom`, `lint_perm`, `lint_local`,
+`lint_file`) and idempotence of the request.  All for every `norm` that upper-cases the handful of
+names the property mentions (`NormOK`), every method, every list of methods.
 -/
 namespace Gold.C16
 open Gold Gold.Lint Gold.C15
 
 /-! ## the names the property mentions -/
-
-def flaggedReturnTypes : List String := ["tVarByteArray", "aListOfInstances", "Text"]
-def inheritedNames : List String := ["Init", "Terminate", "NotifyInit", "NotifyTerminate"]
-def specNames : List String := flaggedReturnTypes ++ inheritedNames ++ ["pass", "Purge", "self"]
-
-/-- `norm` upper-cases the names of the property as ASCII upper-casing does (true of `to_uppercase`) -/
-def NormOK (norm : String → String) : Prop := ∀ s ∈ specNames, norm s = asciiUpper s
 
 theorem normOK_ascii : NormOK asciiUpper := fun _ _ => rfl
 
@@ -52,18 +38,6 @@ theorem code_up :
 
 /-! ## rule: return type -/
 
-def returnTypeWarning (ret : Tree) (T : String) : LDiag :=
-  ⟨E8.sevReturnType, ret.rng, ((E8.returnTypes.find? (fun p => p.1 == asciiUpper T)).map (·.2)).getD "", 0⟩
-
-/-- a function whose return type is the plain type name `T` for a flagged `T` -/
-def returnTypeSpec (norm : String → String) (e : Ev) : Option LDiag :=
-  if e.node.kind == "func_decl" then
-    let ret := e.node.nth 1
-    if ret.kind == "type_basic" then
-      (flaggedReturnTypes.find? (fun T => norm ret.ident == norm T)).map (returnTypeWarning ret)
-    else none
-  else none
-
 /-- **rule_returnType** -/
 theorem rule_returnType (norm : String → String) (hn : NormOK norm) (e : Ev) :
     rtOf Cfg.code norm e = returnTypeSpec norm e := by
@@ -80,42 +54,6 @@ theorem rule_returnType (norm : String → String) (hn : NormOK norm) (e : Ev) :
   · rfl
 
 /-! ## rule: inherited -/
-
-/-- `pass` standing alone: an identifier that is not an operand -/
-def standsAlone (e : Ev) : Bool :=
-  tokIs e.node "Identifier" &&
-  (match e.parent with
-   | some p => !(p.kind == "bin_op" || p.kind == "unary_op" || p.kind == "method_call" || p.kind == "array_access")
-   | none => true)
-
-/-- the property's reading of one visit for the inherited rule -/
-def specIAct (norm : String → String) (e : Ev) : IAct :=
-  if isMethod e.node then .enter e.node.ident e.node.sel
-  else if e.node.kind == "terminal" then
-    (if norm e.node.ident == norm "pass" && standsAlone e then .pass else .other)
-  else if e.node.kind == "unary_op" then
-    if opIs e.node "Inherited" then
-      (let x := e.node.nth 0
-       if isDot x && (x.nth 0).kind == "terminal" && norm (x.nth 0).ident == norm "self" then .inh (x.nth 1).ident else .other)
-    else .other
-  else .other
-
-/-- `inherited self.<n>` or `pass` -/
-def callsInherited (norm : String → String) (n : String) : IAct → Bool
-  | .pass => true
-  | .inh c => norm c == norm n
-  | _ => false
-
-def inheritedSpec (norm : String → String) (m : Method) : List LDiag :=
-  if inheritedNames.any (fun T => norm m.head.node.ident == norm T) &&
-     !(m.body.map (specIAct norm)).any (callsInherited norm m.head.node.ident)
-  then [⟨E8.sevInherited, m.head.node.sel, E8.inheritedMsgPre ++ m.head.node.ident ++ E8.inheritedMsgPost, 0⟩]
-  else []
-
-/-- guard: on every visit of the method the checker's reading (any terminal spelled `pass`; any
-    `inherited <binary operation>` whose right operand has the name) is the property's -/
-def AgreesI (norm : String → String) (m : Method) : Bool :=
-  m.body.all (fun e => ihAct Cfg.fixed norm e == specIAct norm e)
 
 theorem specIAct_not_enter (norm : String → String) {e : Ev} (h : isMethod e.node = false) (n : String) (r : Range) :
     specIAct norm e ≠ .enter n r := by
@@ -167,45 +105,6 @@ theorem rule_inherited (norm : String → String) (hn : NormOK norm) (m : Method
 
 /-! ## rule: unpurged tVarByteArray -/
 
-/-- the property's reading of one visit for the unpurged rule -/
-def specPAct (norm : String → String) (e : Ev) : TAct :=
-  if isMethod e.node then .enter
-  else if e.node.kind == "lvar_decl" then
-    (if (e.node.nth 0).kind == "type_basic" && norm (e.node.nth 0).ident == norm "tVarByteArray"
-     then .decl e.node.ident e.node.sel else .other)
-  else if e.node.kind == "method_call" then
-    if norm e.node.ident == norm "Purge" then
-      (match e.node.kids with
-       | a :: _ => if a.kind == "terminal" then .hit a.ident else .other
-       | [] => .other)
-    else .other
-  else .other
-
-def pacts (norm : String → String) (m : Method) : List TAct := m.body.map (specPAct norm)
-
-/-- the local `tVarByteArray`s of a method -/
-def byteArrays (norm : String → String) (m : Method) : List (String × Range) := decls (pacts norm m)
-
-def purged (norm : String → String) (m : Method) (v : String) : Bool := hitIn norm (pacts norm m) (norm v)
-
-def unpurgedWarning (d : String × Range) : LDiag :=
-  ⟨E8.sevUnpurged, d.2, E8.unpurgedMsgPre ++ d.1 ++ E8.unpurgedMsgPost, 0⟩
-
-def unpurgedSpec (norm : String → String) (m : Method) : List LDiag :=
-  ((byteArrays norm m).filter (fun d => !purged norm m d.1)).map unpurgedWarning
-
-def unpurgedModel (norm : String → String) (m : Method) : List LDiag := upRun Cfg.code norm m.evs
-def unpurgedModelOld (norm : String → String) (m : Method) : List LDiag := upRun Cfg.pinned norm m.evs
-
-/-- guard: every byte array is declared once (up to `norm`) and before it is purged -/
-def WellDeclaredP (norm : String → String) (m : Method) : Bool := wellDeclared norm (pacts norm m)
-
-/-- guard: the checker's reading of every visit (type node *named* tVarByteArray whatever its
-    shape; first argument of `Purge` *named* like the variable whatever its shape) is the
-    property's — or both readings concern no byte array of the method -/
-def AgreesP (norm : String → String) (m : Method) : Bool :=
-  m.body.all (fun e => agreeUpTo norm ((byteArrays norm m).map (fun d => norm d.1)) (upAct Cfg.fixed norm e) (specPAct norm e))
-
 theorem specPAct_not_enter (norm : String → String) {e : Ev} (h : isMethod e.node = false) : specPAct norm e ≠ .enter := by
   simp only [specPAct, h, Bool.false_eq_true, ↓reduceIte]
   repeat' split
@@ -251,24 +150,6 @@ theorem rule_unpurged (norm : String → String) (m : Method)
 
 /-! ## rule: naming conventions -/
 
-def nameWarning (t : Tree) (msg : String) : LDiag := ⟨E8.sevNaming, t.sel, msg, 0⟩
-
-/-- the property's rule for one declaration -/
-def namingSpec (e : Ev) : Option LDiag :=
-  let t := e.node
-  if t.kind == "proc_decl" then (if !isOverride t && !upperFirst t.ident then some (nameWarning t E8.namingProcMsg) else none)
-  else if t.kind == "func_decl" then (if !isOverride t && !upperFirst t.ident then some (nameWarning t E8.namingFuncMsg) else none)
-  else if t.kind == "gvar_decl" then (if !isOverride t && !upperFirst t.ident then some (nameWarning t E8.namingFieldMsg) else none)
-  else if t.kind == "param_decl" then
-    (match e.parent, e.gparent with
-     | some _, some g => if !isOverride g && !upperFirst t.ident then some (nameWarning t E8.namingParamMsg) else none
-     | _, _ => none)
-  else if t.kind == "lvar_decl" then (if upperFirst t.ident then some (nameWarning t E8.namingLocalMsg) else none)
-  else if t.kind == "type_decl" then (if firstChar t.ident != some 't' then some (nameWarning t E8.namingTypeMsg) else none)
-  else if t.kind == "const_decl" then
-    (if firstChar t.ident != some 'c' && !t.ident.startsWith "ml" then some (nameWarning t E8.namingConstMsg) else none)
-  else none
-
 /-- the prefixes of the checker are the property's -/
 theorem prefixes : E8.typePrefix = 't' ∧ E8.constPrefix = 'c' ∧ E8.constPrefixStr = "ml" ∧ E8.exemptChar = '_' := by decide
 
@@ -300,11 +181,6 @@ theorem rule_naming_underscore :
 
 /-! ## each flagged once, nothing else -/
 
-/-- guards of a method, together -/
-def InDomain (norm : String → String) (m : Method) : Bool :=
-  WellDeclared norm m && Agrees norm m && AgreesI norm m && WellDeclaredP norm m && AgreesP norm m &&
-  m.evs.all (fun e => !underscoreFirst e.node.ident)
-
 /-- **lint_is_union** — the items of a method are the multiset union of what the five rules
     demand: each demanded warning once, nothing else. -/
 theorem lint_is_union (norm : String → String) (hn : NormOK norm) (m : Method) (hd : InDomain norm m = true) :
@@ -334,16 +210,6 @@ theorem lint_is_union (norm : String → String) (hn : NormOK norm) (m : Method)
   simp only [unusedModel, unpurgedModel] at e1 e3
   rw [e1, e2, e3, e4, e5]
 
-/-- what the five rules demand of one method -/
-def methodSpec (norm : String → String) (m : Method) : List LDiag :=
-  unusedSpec norm m ++ (returnTypeSpec norm m.head).toList ++ unpurgedSpec norm m ++
-    m.evs.filterMap namingSpec ++ inheritedSpec norm m
-
-/-- what the rules demand of a file: the naming rule on the declarations before the first
-    method, and the five rules on every method -/
-def fileSpec (norm : String → String) (evs : List Ev) : List LDiag :=
-  (headerOf evs).filterMap namingSpec ++ (methodsOf evs).flatMap (methodSpec norm)
-
 /-- **nothing else is flagged, file level**: every item of a response comes from one of the five
     analyzers (the registrations of `manager/mod.rs` are exactly these five). -/
 theorem lint_sources (norm : String → String) (evs : List Ev) :
@@ -351,13 +217,133 @@ theorem lint_sources (norm : String → String) (evs : List Ev) :
       (uvRun Cfg.code norm evs ++ rtRun Cfg.code norm evs ++ upRun Cfg.code norm evs ++ nmRun evs ++ ihRun Cfg.code norm evs) :=
   lintEvents_union Cfg.code norm evs
 
-/-! ## locality and idempotence -/
+/-! ## per-method independence of the whole response -/
+
+theorem code_resets : Cfg.code.uv.resets = true ∧ Cfg.code.up.resets = true ∧ Cfg.code.ihResets = true := by decide
+
+theorem lintAll_cons (cfg : Cfg) (norm : String → String) (h1 : cfg.uv.resets = true) (h2 : cfg.up.resets = true)
+    (h3 : cfg.ihResets = true) (pre : List Ev) (ms : List Method) :
+    (lintEvents cfg norm (pre ++ ms.flatMap Method.evs)).Perm
+      (lintEvents cfg norm pre ++ ms.flatMap (lintMethod cfg norm)) := by
+  induction ms generalizing pre with
+  | nil => simp
+  | cons m rest ih =>
+    simp only [List.flatMap_cons, Method.evs, List.cons_append]
+    refine (lintEvents_split cfg norm h1 h2 h3 pre m.hhead _).trans ?_
+    refine List.Perm.append_left _ ?_
+    have := ih (m.head :: m.body)
+    simp only [List.cons_append] at this
+    refine this.trans ?_
+    simp [lintMethod, Method.evs]
+
+/-- **lint_file** — the response for a file = the items of what precedes its first method,
+    plus, for every method, the items of that method analysed alone (every list of visits is such
+    a file: `header_methods_join`). -/
+theorem lint_file (norm : String → String) (pre : List Ev) (ms : List Method) :
+    (lintEvents Cfg.code norm (pre ++ ms.flatMap Method.evs)).Perm
+      (lintEvents Cfg.code norm pre ++ ms.flatMap (lintMethod Cfg.code norm)) :=
+  lintAll_cons Cfg.code norm code_resets.1 code_resets.2.1 code_resets.2.2 pre ms
+
+theorem lintAll_eq (norm : String → String) (ms : List Method) :
+    (lintAll Cfg.code norm ms).Perm (ms.flatMap (lintMethod Cfg.code norm)) := by
+  have := lint_file norm [] ms
+  simpa [lintAll, lintEvents_nil] using this
+
+/-- **lint_hom** — per-method independence: the items for `ms₁ ++ ms₂` are the multiset union of
+    the items for `ms₁` and for `ms₂` (no analyzer state survives a method boundary). -/
+theorem lint_hom (norm : String → String) (ms₁ ms₂ : List Method) :
+    (lintAll Cfg.code norm (ms₁ ++ ms₂)).Perm (lintAll Cfg.code norm ms₁ ++ lintAll Cfg.code norm ms₂) := by
+  refine (lintAll_eq norm _).trans ?_
+  rw [List.flatMap_append]
+  exact (List.Perm.append (lintAll_eq norm ms₁) (lintAll_eq norm ms₂)).symm
+
+/-- **lint_perm** — permuting the methods permutes the items. -/
+theorem lint_perm (norm : String → String) (ms ms' : List Method) (h : ms.Perm ms') :
+    (lintAll Cfg.code norm ms).Perm (lintAll Cfg.code norm ms') :=
+  (lintAll_eq norm ms).trans ((List.Perm.flatMap_right _ h).trans (lintAll_eq norm ms').symm)
 
 /-- **lint_local** — the verdicts on one method do not depend on the other methods. -/
 theorem lint_local (norm : String → String) (ms₁ : List Method) (m : Method) (ms₂ : List Method) :
     (lintAll Cfg.code norm (ms₁ ++ m :: ms₂)).Perm
-      (lintAll Cfg.code norm ms₁ ++ lintMethod Cfg.code norm m ++ lintAll Cfg.code norm ms₂) :=
-  C15.lint_local norm ms₁ m ms₂
+      (lintAll Cfg.code norm ms₁ ++ lintMethod Cfg.code norm m ++ lintAll Cfg.code norm ms₂) := by
+  refine (lint_hom norm ms₁ (m :: ms₂)).trans ?_
+  rw [List.append_assoc]
+  refine List.Perm.append_left _ ?_
+  have := lint_hom norm [m] ms₂
+  simp only [List.singleton_append] at this
+  refine this.trans (List.Perm.append_right _ ?_)
+  simp [lintAll, lintMethod]
+
+/-- the visits before the first method contribute their naming items and nothing else -/
+theorem lint_header (norm : String → String) (hdr : List Ev) (hh : HeaderOK hdr = true) :
+    (lintEvents Cfg.code norm hdr).Perm (hdr.filterMap namingSpec) := by
+  simp only [HeaderOK, List.all_eq_true, Bool.and_eq_true, Bool.not_eq_true', bne_iff_ne, ne_eq] at hh
+  refine (lintEvents_union Cfg.code norm hdr).trans ?_
+  have e1 : uvRun Cfg.code norm hdr = [] := by
+    unfold uvRun uvRaw
+    rw [tracker_quiet]
+    · rfl
+    · intro a ha
+      simp only [List.mem_map] at ha
+      obtain ⟨e, he, rfl⟩ := ha
+      have := hh e he
+      have hk : (e.node.kind == "lvar_decl") = false := by simp [this.1.2]
+      simp only [uvAct, this.1.1, Bool.false_eq_true, ↓reduceIte, hk]
+      repeat' split
+      all_goals rfl
+  have e2 : rtRun Cfg.code norm hdr = [] := by
+    unfold rtRun
+    rw [List.filterMap_eq_nil_iff]
+    intro e he
+    exact rtOf_not_method Cfg.code norm (hh e he).1.1
+  have e3 : upRun Cfg.code norm hdr = [] := by
+    unfold upRun upMachine
+    rw [tracker_quiet]
+    · rfl
+    · intro a ha
+      simp only [List.mem_map] at ha
+      obtain ⟨e, he, rfl⟩ := ha
+      have := hh e he
+      have hk : (e.node.kind == "lvar_decl") = false := by simp [this.1.2]
+      simp only [upAct, this.1.1, Bool.false_eq_true, ↓reduceIte, hk]
+      repeat' split
+      all_goals rfl
+  have e5 : ihRun Cfg.code norm hdr = [] := by
+    unfold ihRun
+    have hne : noEnterI (hdr.map (ihAct Cfg.code norm)) = true := by
+      simp only [noEnterI, List.all_map, List.all_eq_true, Function.comp]
+      intro e he
+      have := ihAct_not_enter Cfg.code norm (hh e he).1.1
+      cases h : ihAct Cfg.code norm e <;> simp_all
+    have := ih_quiet Cfg.code norm _ hne false
+    simp only [Machine.run, ihMachine] at this ⊢
+    rw [this]
+    rfl
+  have e4 : nmRun hdr = hdr.filterMap namingSpec := by
+    unfold nmRun
+    apply filterMap_congr'
+    intro e he
+    exact rule_naming e (hh e he).2
+  rw [e1, e2, e3, e4, e5]
+  simp
+
+/-- **lint_file_is_union** — for every file whose methods are in the domain: the response is the
+    multiset union of what the rules demand (`fileSpec`) — each demanded warning once, nothing else. -/
+theorem lint_file_is_union (norm : String → String) (hn : NormOK norm) (evs : List Ev)
+    (hh : HeaderOK (headerOf evs) = true) (hm : ∀ m ∈ methodsOf evs, InDomain norm m = true) :
+    (lintEvents Cfg.code norm evs).Perm (fileSpec norm evs) := by
+  have hj := header_methods_join evs
+  have h1 := lint_file norm (headerOf evs) (methodsOf evs)
+  rw [hj] at h1
+  refine h1.trans ?_
+  unfold fileSpec
+  refine List.Perm.append (lint_header norm _ hh) ?_
+  apply perm_flatMap_congr
+  intro m hmem
+  have := lint_is_union norm hn m (hm m hmem)
+  simpa [methodSpec] using this
+
+/-! ## locality of the stateless rules, idempotence -/
 
 /-- the verdict of the stateless rules depends on the declaration alone -/
 theorem stateless_local (norm : String → String) (evs : List Ev) :
@@ -373,11 +359,13 @@ theorem request_idempotent (norm : String → String) (evs : List Ev) :
 /-! ## witnesses -/
 
 def bufDecl (name ty : String) (l : Nat) : Tree := tk "lvar_decl" name l 6 [] [tk "type_basic" ty l 12]
+
 def call (name : String) (l c : Nat) (args : List Tree) : Tree := tk "method_call" name l c [] args
 
 /-- `var buf : tVarByteArray   Purge(BUF)` -/
 def wPurgeCase : Method :=
   mkMethod (procOf [bufDecl "buf" "tVarByteArray" 3, call "Purge" 4 2 [idt "BUF" 4 8]]) (by decide)
+
 /-- `var buf : tVarByteArray   var other : tVarByteArray   Purge(other)` -/
 def wPurgeOther : Method :=
   mkMethod (procOf [bufDecl "buf" "tVarByteArray" 3, bufDecl "other" "tVarByteArray" 4, call "Purge" 5 2 [idt "other" 5 8]]) (by decide)
